@@ -31,7 +31,7 @@ type Op struct {
 	Kind   string `json:"kind"` // put activate delver del get getver cond info list
 	Name   string `json:"name"`
 	Val    []byte `json:"val,omitempty"`
-	VSel   string `json:"vsel,omitempty"` // zero active latest next existing deleted huge abs
+	VSel   string `json:"vsel,omitempty"` // zero active latest next existing inactive deleted huge abs
 	VArg   int    `json:"varg,omitempty"`
 	Caller int    `json:"caller,omitempty"` // index into the scenario's caller table; 0 = superuser
 }
@@ -120,6 +120,18 @@ func (t *Tracker) Resolve(o Op) uint32 {
 		vs := make([]int, 0, len(s.Vers))
 		for v := range s.Vers {
 			vs = append(vs, int(v))
+		}
+		sort.Ints(vs)
+		return uint32(vs[arg%len(vs)])
+	case "inactive":
+		vs := make([]int, 0, len(s.Vers))
+		for v := range s.Vers {
+			if v != s.Active {
+				vs = append(vs, int(v))
+			}
+		}
+		if len(vs) == 0 {
+			return s.Latest + 1
 		}
 		sort.Ints(vs)
 		return uint32(vs[arg%len(vs)])
@@ -617,10 +629,18 @@ func GenOp(rt *rapid.T, names []string, kinds []string, callers int) Op {
 		}
 	case "activate", "delver", "getver", "cond":
 		o.VSel = rapid.SampledFrom(vsels).Draw(rt, "vsel")
-		if o.Kind == "activate" && rapid.Bool().Draw(rt, "act-existing") {
-			o.VSel = "existing" // make activations that succeed (forwards and backwards) frequent
+		if o.Kind == "activate" {
+			switch rapid.IntRange(0, 3).Draw(rt, "act-sel") {
+			case 0, 1:
+				o.VSel = "existing" // make activations that succeed (forwards and backwards) frequent
+			case 2:
+				o.VSel = "deleted" // ... and activations of a version that was there once
+			}
 		}
-		if o.VSel == "existing" || o.VSel == "deleted" || o.VSel == "abs" {
+		if o.Kind == "delver" && rapid.IntRange(0, 2).Draw(rt, "del-inactive") == 0 {
+			o.VSel = "inactive" // make delete-versions that succeed frequent
+		}
+		if o.VSel == "existing" || o.VSel == "deleted" || o.VSel == "abs" || o.VSel == "inactive" {
 			o.VArg = rapid.IntRange(0, 6).Draw(rt, "varg")
 		}
 	}
@@ -636,6 +656,15 @@ func GenHistory(rt *rapid.T, minLen, maxLen int) []Op {
 	// weight the ordinary names, the first one most
 	names = append(names, BaseNames...)
 	names = append(names, "a", "a", "a", "b")
+	// about half of a history's calls go to one focus name, so that deep per-name histories
+	// (several versions, deletions among them, re-activations) are common
+	if lo := rapid.SampledFrom([]int{1, 1, 8, 15}).Draw(rt, "minlen"); lo > minLen && lo <= maxLen {
+		minLen = lo // rapid prefers short slices; a good share of histories should be long
+	}
+	focus := rapid.SampledFrom(names).Draw(rt, "focus")
+	for i, n := 0, len(names); i < n; i++ {
+		names = append(names, focus)
+	}
 	return rapid.SliceOfN(rapid.Custom(func(rt *rapid.T) Op { return GenOp(rt, names, opKindsMut, 1) }), minLen, maxLen).Draw(rt, "ops")
 }
 
